@@ -114,17 +114,25 @@ def run(ctx):
     counts = {}
     sites = {}
     nfront = 0
+    ndis = [0]
     for f in P.fns.values():
         if not in_front(f):
             continue
         nfront += 1
+        fx = None
         for p in own_panic_sites(f, kinds=("explicit", "unwrap", "expect")):
             if p["kind"] == "explicit" and p["exp"] and _is_debug_assert(p):
                 continue
+            if p["kind"] in ("unwrap", "expect"):
+                fx = fx or FlowCx(P, f)
+                if _guarded_unwrap(fx, p):
+                    ndis[0] += 1
+                    continue
             k = (fkey(f), p["kind"])
             counts[k] = counts.get(k, 0) + 1
             sites.setdefault(k, []).append(f.loc(p["line"]))
     ctx.floor("K3", nfront, 900, "front-end functions analysed")
+    ctx.note("K3: %d unwrap/expect sites discharged by a dominating guard on the same value" % ndis[0])
     for k, n in sorted(counts.items()):
         allowed, why = ALLOW.get(k, (0, None))
         ctx.ob("K3", "%s#%s" % k, n <= allowed,
@@ -138,6 +146,7 @@ def run(ctx):
     nlex = 0
     ncur = 0
     nwr = 0
+    has_cursor = {}
     for lang in ("gql", "cypher", "sparql", "gremlin", "graphql"):
         pre = "grafeo_adapters::query::%s::lexer::" % lang
         fns = [f for f in P.fns.values() if f.id.startswith(pre) or ("<" + pre) in f.id]
@@ -192,6 +201,64 @@ def run(ctx):
         ctx.note("K4 %s: slicing cursors %s, %d cursor writes" % (lang, sorted(cursors), nw))
         ncur += len(cursors)
         nwr += nw
+        has_cursor[lang] = bool(cursors)
+    # K4c: a lexer whose `advance` does not test the end of input itself (it reads a sentinel there and still moves the
+    # cursor) may only be advanced over characters it has looked at: between two advances there is a look at the
+    # current character / end of input, or the first advance was preceded by a look at the next character as well.
+    from .facts import must_pass as _mp
+    for lang in ("gql", "cypher", "sparql", "gremlin", "graphql"):
+        pre = "grafeo_adapters::query::%s::lexer::" % lang
+        adv = P.fns.get(pre + "Lexer::advance")
+        if adv is None or not has_cursor.get(lang):
+            continue
+        cur_fns = {pre + "Lexer::is_at_end", pre + "Lexer::current_char"}
+        peek_fns = {pre + "Lexer::peek_char"}
+        # advance() is self-guarded when its cursor write is conditional (on a bound test or on having got a character)
+        ax = FlowCx(P, adv)
+        wblocks = []
+        for bi, b in enumerate(adv.blocks):
+            if b["cl"]:
+                continue
+            for st in b["s"]:
+                flds = [p_ for p_ in st[0][1:] if isinstance(p_, str) and p_.startswith("f:")]
+                if flds and st[1][0] != "dead" and flds[-1].split(":", 2)[2] == pre + "Lexer" and _field_ty(P, pre + "Lexer", flds[-1].split(":", 2)[1]) == "usize":
+                    wblocks.append(bi)
+        self_guarded = bool(wblocks) and all(ax.facts_at(bi) for bi in wblocks)
+        if self_guarded:
+            ctx.ob("K4c", "%s::lexer#advance-self-guarded" % lang, True, what="advance() tests the end of input itself", where=adv.loc())
+            continue
+        nsite = 0
+        for f in P.fns.values():
+            if not f.id.startswith(pre) or f.id == adv.id:
+                continue
+            sites = [bi for bi, t in f.calls() if callee_name(t) == adv.id]
+            if not sites:
+                continue
+            look = {bi for bi, t in f.calls() if callee_name(t) in cur_fns | peek_fns}
+            peek = {bi for bi, t in f.calls() if callee_name(t) in peek_fns}
+            after = {a: f.blocks[a]["t"].get("t") for a in sites}
+            for a in sites:
+                nsite += 1
+                ok = True
+                # paths from the function entry
+                if not _mp(f, 0, look, {a}):
+                    ok = False
+                for a1 in sites:
+                    st = after[a1]
+                    if st is None:
+                        continue
+                    if _mp(f, st, look, {a}):
+                        continue
+                    # a reaches `a` from a1 without looking: allowed only if every way into a1 looked at the next char
+                    starts = [0] + [after[x] for x in sites if after[x] is not None]
+                    if not all(_mp(f, s0, peek, {a1}) for s0 in starts):
+                        ok = False
+                k = sum(1 for x in sites if x < a)
+                ctx.ob("K4c", "%s::lexer#%s.advance[%d]" % (lang, short_id(f.id).split("::")[-1], k), ok,
+                       what="%s advances the cursor over a character it has not looked at (no end-of-input / current-character test since "
+                            "the previous advance): at the end of the input the cursor moves past the end of the source string and "
+                            "the next slice panics" % short_id(f.id), where=f.loc(f.blocks[a]["t"]["line"]))
+        ctx.floor("K4c", nsite, 20, "advance() call sites in the %s lexer (advance is not self-guarded)" % lang)
     ctx.floor("K4", nlex, 5, "lexers")
     ctx.floor("K4", ncur, 4, "lexer fields used to slice the source string")
     ctx.floor("K4", nwr, 8, "writes of slicing cursors")
@@ -277,6 +344,41 @@ def run(ctx):
 
 
 def _is_debug_assert(p):
+    return False
+
+
+def _guarded_unwrap(fx, p):
+    """an unwrap / expect whose receiver is shown non-empty by a dominating test on the same variable or field:
+    `x.is_some()`, a `Some` arm on x, `!x.is_empty()`, or a length comparison of the collection it was taken from"""
+    t = p["term"]
+    if not t["args"]:
+        return False
+    recv = fx.tags(t["args"][0])
+    roots = {x for x in recv if x.startswith(("var:", "cell:")) and not x.startswith(("cell:Some.", "cell:Ok."))}
+    if not roots:
+        return False
+    for f in fx.facts_at(p["block"]):
+        if f[0] == "call":
+            nm = f[1].split("::")[-1]
+            args = set()
+            for a in f[3]:
+                args |= a
+            if not (args & roots):
+                continue
+            if nm in ("is_some", "is_ok") and f[2] is True:
+                return True
+            if nm in ("is_empty", "is_none", "is_err") and f[2] is False:
+                return True
+        elif f[0] == "variant" and f[2] in ("Some", "Ok") and (f[3] & roots):
+            return True
+        elif f[0] == "cmp":
+            both = f[2] | f[3]
+            if (both & roots) and any(x.startswith("call:") and x.split("::")[-1] == "len" for x in both):
+                consts = [x for x in both if re.match(r"^const:\d+$", x)]
+                if f[1] in ("Eq", "Ge", "Gt", "Ne") and consts:
+                    if f[1] == "Eq" and "const:0" in consts:
+                        continue
+                    return True
     return False
 
 
